@@ -46,6 +46,12 @@ func TestVerifDisplay(t *testing.T) {
 		if i >= n-2 {
 			stall = time.Duration(res.n(8, 35)) * time.Second
 			stallFirst = i == n-2
+			for len(frames) < 3 {
+				bs, frames = vStream(r, maxFrame)
+			}
+			// ... and one that ends in a valid frame, so that the stalled write can be the very last thing
+			last := vRandFrame(r, 1+r.Intn(40))
+			bs, frames = append(bs, last...), append(frames, last)
 		}
 		if rp != nil {
 			bs = vUnhx(rp["stream"])
